@@ -182,6 +182,8 @@ class Replayer:
         self.ident_same = self.ident_diff = 0
         self.stop = False
         self.expanded: set = set()  # states whose out-edges have been replayed
+        self.fetch_paths: list = []  # histories ending in an operation that may hand out a shared default
+        self.n_isolated = 0
 
     # one operation + every comparison for the state it leads to
     def step(self, tree: kit.Tree, objs: dict, extras: list, e: list):
@@ -260,6 +262,36 @@ class Replayer:
             raise Fail("getitem", f"set[cls] outcomes {gi}; required {j['gi']} in heap {heap2}")
         return heap2, objs2
 
+    @staticmethod
+    def fetches(e) -> bool:
+        """Operations whose result may be a class's shared (interned) default set: their
+        outcome depends on class-level state, so their histories are also run in isolation."""
+        op = e[4]
+        return (op[0] == "New" and not op[4]) or op[0] == "Convert"
+
+    def run_isolated(self, path) -> Fail | None:
+        """The history alone, on fresh classes, with every check; then the default sets."""
+        from term_image.renderable import RenderArgs
+
+        tree = kit.Tree(self.par, self.has)
+        objs: dict = {}
+        extras: list = []
+        try:
+            for e in path:
+                _heap2, objs = self.step(tree, objs, extras, e)
+            for c in range(len(self.par) + 1):
+                try:
+                    obs = tree.observe(RenderArgs(tree.cls[c]))
+                except Exception as ex:  # noqa: BLE001
+                    obs = ["raised", type(ex).__name__, str(ex)]
+                want = ["ra", c, self.info["ds"][c]]
+                if obs != want:
+                    raise Fail("shared-default-altered",
+                               f"after the history, RenderArgs(K{c}) is {obs}; the default set is {want}")
+        except Fail as f:
+            return f
+        return None
+
     def dfs(self, tree, key, objs, extras, path, only=None):
         if only is None:
             if key in self.expanded:
@@ -272,6 +304,8 @@ class Replayer:
                 continue
             self.n_edges += 1
             self.rep.evaluations += 1
+            if self.fetches(e):
+                self.fetch_paths.append(path + [e])
             try:
                 heap2, objs2 = self.step(tree, objs, extras, e)
             except Fail as f:
@@ -317,25 +351,37 @@ class Replayer:
                                      f"after the histories starting with {e1[4]}, RenderArgs(K{c}) is "
                                      f"{obs}; the default set is {want}"), [e1], dfs_only=True)
                     break
+        # second pass: class-level state (interned default sets) leaks between sibling
+        # histories above, so every history ending in a fetch runs alone on fresh classes
+        for path in self.fetch_paths:
+            if self.stop:
+                break
+            self.n_isolated += 1
+            f = self.run_isolated(path)
+            if f:
+                self.report(f, path, isolated=True)
+        self.fetch_paths = []
 
     # -- reporting ---------------------------------------------------------------------
-    def report(self, f: Fail, path: list, dfs_only: bool = False):
+    def report(self, f: Fail, path: list, dfs_only: bool = False, isolated: bool = False):
         ops = [e[4] for e in path]
         name = ops[-1][0]
-        iso = None
-        if not dfs_only:
-            iso = isolated_failure(self.par, self.has, ops)
+        iso = f if isolated else None
+        if not dfs_only and not isolated:
+            iso = self.run_isolated(path)
         tree = {"par": self.par, "has": self.has}
+        if iso:
+            f = iso
         sig = f"{API.get(name, name)}:{f.clause}"
         detail = (f"tree par={self.par} has={self.has} (class 0 = Renderable; K<c> has fields f1.."
                   f"f{{1,2}})\nhistory: {ops}\n{f.detail}")
         if iso:
             scenario = {"kind": "trace", "tree": tree, "ops": ops}
-            detail += f"\nreproduced in isolation on fresh classes: Trace_RenderArgs says {iso!r}"
+            detail += "\n(history run alone on freshly created classes)"
         else:
             scenario = {"kind": "dfs", "tree": tree, "first": ops[0], "label": self.label}
             detail += ("\n(not reproduced by the history alone: depends on earlier sibling histories "
-                       "on the same classes - shared state was altered)")
+                       "on the same classes - shared class-level state was altered)")
             if not dfs_only:
                 sig += ":after-sibling-histories"
         self.rep.violation(sig, detail, scenario)
@@ -605,7 +651,7 @@ def _replay_part(args):
         judge[s["t"]][hkey(s["h"])] = s["j"]
     if not by_tree:
         return {"error": f"no EDGE lines in part {idx} of {label}"}
-    out = {"edges": 0, "paths": 0, "same": 0, "diff": 0, "trees": 0, "canary": False,
+    out = {"edges": 0, "paths": 0, "same": 0, "diff": 0, "trees": 0, "canary": False, "isolated": 0,
            "sample": None, "error": None}
     try:
         for t, edges in sorted(by_tree.items()):
@@ -620,6 +666,7 @@ def _replay_part(args):
             out["trees"] += 1
             out["edges"] += rp.n_edges
             out["paths"] += rp.n_paths
+            out["isolated"] += rp.n_isolated
             out["same"] += rp.ident_same
             out["diff"] += rp.ident_diff
             if out["sample"] is None:
@@ -652,8 +699,8 @@ def replay_edges(rep: Report, results, label: str, only_tree=None, only_first=No
     with ctx.Pool(min(8, len(jobs))) as pool:
         outs = pool.map(_replay_part, jobs, chunksize=1)
     _STDOUTS = []
-    tot = {"label": label, "trees": 0, "edges": 0, "paths": 0, "identity_as_modelled": 0,
-           "identity_differs": 0}
+    tot = {"label": label, "trees": 0, "edges": 0, "paths": 0, "isolated_histories": 0,
+           "identity_as_modelled": 0, "identity_differs": 0}
     acts: dict[str, int] = defaultdict(int)
     for o in outs:
         if o.get("error"):
@@ -663,6 +710,7 @@ def replay_edges(rep: Report, results, label: str, only_tree=None, only_first=No
         tot["trees"] += o["trees"]
         tot["edges"] += o["edges"]
         tot["paths"] += o["paths"]
+        tot["isolated_histories"] += o["isolated"]
         tot["identity_as_modelled"] += o["same"]
         tot["identity_differs"] += o["diff"]
         rep.evaluations += o["evaluations"]
@@ -681,7 +729,7 @@ def replay_edges(rep: Report, results, label: str, only_tree=None, only_first=No
         if vac:
             raise tlc.MachineryError(f"actions without a replayed edge in {label}: {vac}")
         tot["edges_per_action"] = {a: acts[a] for a in ACTIONS}
-    rep.traces_validated += tot["paths"]
+    rep.traces_validated += tot["paths"] + tot["isolated_histories"]
     rep.extra.setdefault("replay", []).append(tot)
 
 
